@@ -99,10 +99,10 @@ func (s *socket) SendMsg(m *protocol.Message) error {
 }
 
 func (s *socket) RecvMsg() (*protocol.Message, error) {
+	timeQ := nilQ
 	for {
-		timeQ := nilQ
 		s.Lock()
-		if s.recvExpire > 0 {
+		if timeQ == nil && s.recvExpire > 0 {
 			timeQ = time.After(s.recvExpire)
 		}
 		sizeQ := s.sizeQ
